@@ -1,7 +1,7 @@
 (* Property C14 -- dependencies are attributed to the asset being loaded, and only to it.
    Statements only. *)
 From Coq Require Import List String NArith ZArith Bool.
-From AM Require Import Rust.Ast Gen.Records Gen.Anycache Gen.Asset Ref.Load Ref.Sys Proofs.SysRecs Tie.Records.
+From AM Require Import Rust.Ast Gen.Records Gen.Anycache Gen.Asset Ref.Load Ref.Sys Proofs.SysRecs Proofs.SysGraph Tie.Records.
 Import ListNotations.
 
 (* the code records as the model does: fresh record per reloadable load behind a drop guard,
@@ -56,3 +56,21 @@ Example C14_nonvacuous :
   | None => False
   end.
 Proof. vm_compute. reflexivity. Qed.
+
+(* what the reloader's graph makes of the records: registering an asset with the entries its load
+   recorded gives it exactly those dependencies, makes it a dependent of exactly those entries (older
+   edges it no longer records are removed), and moves nobody else's edges ... *)
+Theorem C14_insertion_attributes_exactly_the_recorded_entries : forall g a deps t,
+  GInv g ->
+  deps_of (graph_insert g a deps t) a = deps /\
+  (forall x, dep_mem a (rdeps_of (graph_insert g a deps t) x) = dep_mem x deps) /\
+  (forall x, x <> a -> deps_of (graph_insert g a deps t) x = deps_of g x) /\
+  (forall x y, y <> a -> dep_mem y (rdeps_of (graph_insert g a deps t) x) = dep_mem y (rdeps_of g x)).
+Proof. exact insertion_attributes_exactly. Qed.
+
+(* ... and in every state the system reaches, through any history, the two directions of the graph
+   agree: a is among the dependents of d exactly when d is among the dependencies of a *)
+Theorem C14_graph_directions_agree_in_every_history : forall reloader ops a d,
+  let g := graph (fst (run (init_st reloader) ops)) in
+  dep_mem a (rdeps_of g d) = dep_mem d (deps_of g a).
+Proof. intros reloader ops. exact (graph_symmetric_from_the_start reloader ops). Qed.
